@@ -27,6 +27,16 @@ loadstate_t iobuffer::load_buffer(FILE *fin, bool ispadding)
   WV_POINT("ld0", -1);
   u32_t load = fread(b, 1, sum, fin);
   bool readover = feof(fin);
+  if ((!ispadding) && (!readover))
+  {
+    // a full read does not set EOF yet: look one byte ahead so that the chunk
+    // holding the padding is recognised as the last one
+    int peek = fgetc(fin);
+    if (peek == EOF)
+      readover = true;
+    else
+      ungetc(peek, fin);
+  }
   tail = load & 0xf;
   total = load >> 4;
   now = 0;
